@@ -240,3 +240,64 @@ func HC16History() {
 	vAssert(parsed != len(bomb), "bomb-beyond-cap-refused-after-history")
 	vReach("end")
 }
+
+// HC16Chain: the real Parse (pooled state) with a scaled-down cap k installed in the pooled state
+// (the cap is only ever compared with the level in consumeAny - HC16Guard - so behaviour is
+// parametric in it): the input is a chain of d concrete openers (arrays, objects as member
+// values, or alternating) followed by a short symbolic tail. The interpreter's call depth stays
+// within a bound that depends on k only, not on d, and an input nested deeper than the cap is
+// never reported as parsed completely - whatever the kind of container and whatever follows.
+func HC16Chain() {
+	maxN := vChoice("maxlen", 32)
+	k := 1 + vChoice("cap", 2)
+	d := vChoice("depth", 13)
+	shape := vChoice("shape", 3)
+	var in []byte
+	for i := 0; i < d; i++ {
+		if shape == 1 || (shape == 2 && i%2 == 1) {
+			in = append(in, '{', '"', 'k', '"', ':')
+		} else {
+			in = append(in, '[')
+		}
+	}
+	tail := vBytes("tail", 0, maxN)
+	jsAlpha(tail, "[]{}\":1 ")
+	in = append(in, tail...)
+	q := [2]string{QueryNone, QueryGeo}[vChoice("query", 2)]
+	for parserPool.Get() != nil && d < 0 {
+	}
+	parserPool.Put(&parserState{maxRecursion: k})
+	vDepthReset()
+	parsed, _, _, _ := Parse(q, in)
+	dep := vDepthMax()
+	if vSymbolic() {
+		vAssert(dep <= 2*(k+1)+6, "chain-stack-depth-bounded-by-cap")
+	}
+	// nesting depth of the input (brackets outside strings)
+	depth, maxDepth := 0, 0
+	inStr := false
+	for i := 0; i < len(in); i++ {
+		c := in[i]
+		if inStr {
+			if c == '"' {
+				inStr = false
+			}
+			continue
+		}
+		switch c {
+		case '"':
+			inStr = true
+		case '[', '{':
+			depth++
+			if depth > maxDepth {
+				maxDepth = depth
+			}
+		case ']', '}':
+			depth--
+		}
+	}
+	if maxDepth > k+1 {
+		vAssert(parsed != len(in), "chain-beyond-cap-not-parsed-completely")
+	}
+	vReach("end")
+}
